@@ -36,7 +36,7 @@ theorem body_skeletons :
       [("-", "_consumer.write"), ("if/if", "self.disconnectConsumer"), ("if/if", "d.callback")] ∧
     Gen.Skel.skeleton "Connection.recordReceived" = [("if", "self._writeToConsumer"), ("-", "self._deliverRecords")] ∧
     Gen.Skel.skeleton "FileConsumer.write" = [("-", "_f.write"), ("if", "self._progress"), ("if", "self._hasher")] := by
-  decide
+  decide +kernel
 
 theorem chunk_size_pos : 0 < Gen.Consts.FILESENDER_CHUNK_SIZE := by decide
 
